@@ -3,9 +3,10 @@
 (* TRACE_FILE holds [obs |-> << ... >>]; an observation is one of                                         *)
 (*   [kind |-> "parse", t, x, ok, v]        one parse of one key of type t with input x through           *)
 (*        parse_object({key: x}) or parse_args(["--key=" + text]): accepted?, and the resulting value;    *)
-(*   [kind |-> "fix", t, first, vok, sok, second, rok, dsame, ser, ser2, jrok, jdsame, jser, jser2]        *)
+(*   [kind |-> "fix", t, first, vok, sok, second, draised, rok, dsame, ser, ser2, jdraised, jrok, ...]     *)
 (*        what happened to an accepted result `first`: parser.validate passed (vok), parse_object of the  *)
-(*        result succeeded (sok) and returned `second`, the dump re-parsed (rok) and the second dump was   *)
+(*        result succeeded (sok) and returned `second`, dump raised (draised), the dump re-parsed (rok)    *)
+(*        and the second dump was                                                                          *)
 (*        byte-identical (dsame), the same for format="json" (jrok, jdsame); ser / ser2 (jser / jser2) are  *)
 (*        the first and the second dump as read back by the stock YAML (JSON) loader.                       *)
 (* Sets arrive as arrays and dicts as arrays of pairs; V / T rebuild the spec's values and type terms.     *)
@@ -39,10 +40,10 @@ Next == UNCHANGED i
 
 Say(kind, idx, clause) == PrintT(<<"R", kind, idx, clause>>)
 DevStr(d) == (IF "excLeak" \in d THEN "+excLeak" ELSE "") \o (IF "origNested" \in d THEN "+origNested" ELSE "")
-             \o (IF "inPlace" \in d THEN "+inPlace" ELSE "")
+             \o (IF "inPlace" \in d THEN "+inPlace" ELSE "") \o (IF "setListing" \in d THEN "+setListing" ELSE "")
              \o (IF "litEq" \in d THEN "+litEq" ELSE "") \o (IF "dictKey" \in d THEN "+dictKey" ELSE "")
              \o (IF "serCollision" \in d THEN "+serCollision" ELSE "") \o (IF "yamlFloatStr" \in d THEN "+yamlFloatStr" ELSE "")
-             \o (IF "leftObject" \in d THEN "+leftObject" ELSE "") \o (IF "leftSet" \in d THEN "+leftSet" ELSE "")
+             \o (IF "serLenient" \in d THEN "+serLenient" ELSE "") \o (IF "jsonKeyCollision" \in d THEN "+jsonKeyCollision" ELSE "") \o (IF "leftObject" \in d THEN "+leftObject" ELSE "") \o (IF "leftSet" \in d THEN "+leftSet" ELSE "")
 
 CheckParse(n) ==
   LET o   == Obs[n]
@@ -67,29 +68,40 @@ SerMatch(sp, ob) ==
 \* the tree has a set with two or more members: dump writes them in the order in which Python happens to list the set
 RECURSIVE MultiBag(_)
 MultiBag(sp) == CASE sp.k = "bag" -> Cardinality(DOMAIN sp.v) > 1
+                  [] sp.k = "set" -> Cardinality(sp.v) > 1                      \* a set that was left as it is (yaml: !!set)
                   [] sp.k \in {"list", "tuple"} -> \E n \in 1..Len(sp.v) : MultiBag(sp.v[n])
                   [] sp.k = "dict" -> \E n \in 1..Len(sp.v) : MultiBag(sp.v[n][2])
                   [] OTHER -> FALSE
 
+\* deviations of a re-parse that can change its outcome (litEq / dictKey only ever return the value they were given)
+Causal == {"inPlace", "excLeak", "origNested", "setListing"}
 CheckFix(n) ==
   LET o   == Obs[n]
       ty  == T(o.t)
       fst == V(o.first)
       b   == AlgParse(ty, fst, NoneV)
       s   == IF fst = NoneV THEN Ok(NoneV, {}, NoneV) ELSE AlgDump(ty, fst)
-      \* deviations on the way dump -> parse; the tree that is parsed again is the one that was really written
+      \* the tree that is parsed again is the one that was really written
       back == IF o.ser.k = "other" THEN Unbag(s.v) ELSE V(o.ser)
-      dd  == s.dev \cup (IF s.ok THEN AlgParse(ty, back, NoneV).dev ELSE {})
+      rd  == IF s.ok THEN AlgParse(ty, back, NoneV).dev \cap Causal ELSE {}
       \* both dumps are the predicted tree and differ only in the order of the members of a set
       reorder(ok, s1, s2) == ok /\ s.ok /\ MultiBag(s.v) /\ SerMatch(s.v, V(s1)) /\ SerMatch(s.v, V(s2))
-      why(d, ok, s1, s2) == IF d # {} THEN "/as-alg/" \o DevStr(d) ELSE IF reorder(ok, s1, s2) THEN "/as-alg/+setOrder" ELSE "/other"
+      \* what the Alg layer offers as the reason: the dumper raised / the order of a set / something on the way dump -> parse
+      why(raised, cannotWrite, notThisFormat, ok, s1, s2) ==
+        IF raised THEN (IF s.dev \cap cannotWrite # {} THEN "/as-alg/" \o DevStr(s.dev \cap cannotWrite) ELSE "/other")
+        ELSE IF reorder(ok, s1, s2) THEN "/as-alg/+setOrder"
+        ELSE LET d == ((s.dev \ {"leftObject", "leftSet"}) \cup rd) \ notThisFormat
+             IN IF d # {} THEN "/as-alg/" \o DevStr(d) ELSE "/other"
   IN /\ o.vok \/ Say("fix", n, "ref/validate")                                            \* a result passes validation
      /\ (o.sok /\ Canon(V(o.second)) = Canon(fst))                                        \* parsing it again changes nothing
-          \/ Say("fix", n, IF b.dev # {} /\ b.ok = o.sok /\ (b.ok => Canon(b.v) = Canon(V(o.second))) THEN "ref/second/as-alg/" \o DevStr(b.dev) ELSE "ref/second/other")
-     /\ (o.rok /\ o.dsame) \/ Say("fix", n, "ref/dump" \o why(dd \ {"leftSet"}, o.rok, o.ser, o.ser2))
-     /\ (o.jrok /\ o.jdsame) \/ Say("fix", n, "ref/dumpjson" \o why(dd \ {"yamlFloatStr"}, o.jrok, o.jser, o.jser2))
-     /\ (b.ok /\ Canon(b.v) = Canon(fst)) \/ Say("fix", n, "alg/second")                  \* ... and the transcription agrees
-     /\ (s.ok /\ SerMatch(s.v, V(o.ser))) \/ Say("fix", n, "alg/ser")
+          \/ Say("fix", n, IF "setListing" \in b.dev THEN "ref/second/as-alg/+setListing"       \* any order, any outcome
+                           ELSE IF b.dev # {} /\ b.ok = o.sok /\ (b.ok => Canon(b.v) = Canon(V(o.second))) THEN "ref/second/as-alg/" \o DevStr(b.dev)
+                           ELSE "ref/second/other")
+     /\ (o.rok /\ o.dsame) \/ Say("fix", n, "ref/dump" \o why(o.draised, {"leftObject"}, {"jsonKeyCollision"}, o.rok, o.ser, o.ser2))
+     /\ (o.jrok /\ o.jdsame) \/ Say("fix", n, "ref/dumpjson" \o why(o.jdraised, {"leftObject", "leftSet"}, {"yamlFloatStr"}, o.jrok, o.jser, o.jser2))
+     /\ ("setListing" \in b.dev \/ ~(o.sok /\ Canon(V(o.second)) = Canon(fst)) \/ (b.ok /\ Canon(b.v) = Canon(fst)))
+          \/ Say("fix", n, "alg/second")                                                 \* ... and the transcription agrees
+     /\ ("setListing" \in s.dev \/ o.draised \/ (s.ok /\ SerMatch(s.v, V(o.ser)))) \/ Say("fix", n, "alg/ser")
 
 Check == IF Obs[i].kind = "parse" THEN CheckParse(i) ELSE CheckFix(i)
 Inv == Check \/ TRUE
